@@ -146,7 +146,7 @@ def _terms(t):
 
 def r2_who(ctx):
     r = Rule("C17.R2", "only the units a request used are registered, with their own strings",
-             "`exactly that unit's strings ... and nothing for units the request did not use`", floor=5)
+             "`exactly that unit's strings ... and nothing for units the request did not use`", floor=6)
     prog = ctx.mir("main")
     callers = sorted({bb.name for (bb, i, t) in prog.callers_of(r"register::RegisterCtx::<L>::register$")})
     if callers == ["leptos_i18n::fetch_translations::TranslationUnit::register"]:
@@ -197,6 +197,29 @@ def r2_who(ctx):
         r.inst("RegisterCtx::register", "(T::LOCALE, T::ID) -> T::STRINGS of the same T, in the context of the current render; nothing without a context")
     else:
         r.viol("R2:RegisterCtx::register", "registration changed: %s" % why, file=F)
+    # the registry is written by `register` alone: everything else that locks it (serialising it into the page; the embed
+    # closure is re-run for every render phase) only reads it - a body that obtains mutable access to the guarded map could
+    # drop or change the units registered so far
+    from mirlib import callee_name as _cn
+    writers = []
+    lockers = 0
+    for nm, bb in prog.bodies.items():
+        if bb.crate != "leptos_i18n" or "fetch_translations" not in nm and "context" not in nm:
+            continue
+        calls = [(_cn(t) or "") for _i, t in bb.calls()]
+        if not any(c.endswith("Mutex::<T>::lock") or c.endswith("Mutex::<T>::try_lock") or c.endswith("Mutex::<T>::get_mut") or c.endswith("Mutex::<T>::into_inner") for c in calls):
+            continue
+        if "register" not in nm.split("fetch_translations")[-1] and "RegisterCtx" not in nm:
+            continue
+        lockers += 1
+        if any(c.endswith("as std::ops::DerefMut>::deref_mut") or c.endswith("Mutex::<T>::get_mut") or c.endswith("Mutex::<T>::into_inner") for c in calls):
+            writers.append(nm.split("::register::")[-1] if "::register::" in nm else nm)
+    if lockers < 2:
+        r.viol("R2:registry#lockers", "expected at least the two bodies that lock the registry (register, to_array), found %d" % lockers, file=F)
+    elif sorted(writers) != ["RegisterCtx::<L>::register"]:
+        r.viol("R2:registry#single-writer", "mutable access to the registered units is taken in %s: only RegisterCtx::register may change the registry (serialising it must leave it intact, the embed closure runs once per render phase)" % sorted(writers), file=F)
+    else:
+        r.inst("registry single writer", "%d bodies lock the registry; only RegisterCtx::register takes mutable access (to_array reads through Deref)" % lockers)
     from rules.common import msum
     got = msum(prog, r"register::RegisterCtx::<L>::provide_context$")
     if got and got[0][1] == "RegisterCtx#RegisterCtx(Arc::new(Mutex::new(HashMap::new())))" and got[0][2] == ["prelude::provide_context(RegisterCtx#RegisterCtx(Clone::clone(Arc::new(Mutex::new(HashMap::new())))))"]:
